@@ -5,14 +5,14 @@
    (`OutOfFuel`).  Tie: the editor correspondence (a panic of the Rust API is an outcome both sides
    must agree on) and the supervised-worker campaign through the C API (vharness `capi`).
 
-   PARTIAL: proved so far - the invariant that discharges the index / assertion sites holds for
-   every history (EditorInv), every composition-editor primitive is total under it, and the three
-   ways to crash / hang the pinned tree are gone.  The totality of the four key handlers and of the
-   phrase selector as one theorem over all histories (run never returns Panic / OutOfFuel) is
-   stated at the end and not yet proved; it is covered by the two ties only. *)
+   Proved: for every history (run) from any state the invariant allows - hence from a fresh editor - no
+   operation of the modelled editor returns Panic or OutOfFuel (C01_no_history_panics_or_hangs), under the
+   hypotheses listed at the theorem; the three ways to crash / hang the pinned tree are refuted there and
+   gone here.  Outside the theorem (ties only): the conversion engines' own path search (its answers enter
+   as an oracle that tiles the buffer, C03), the C glue and the keyboard-layout tables, wall-clock time. *)
 From Coq Require Import NArith List Bool Arith Lia.
-From LC Require Import Base.Lib Gen.Editor_gen Model.Syllable Model.Composition Model.Conversion Model.Editor Model.EditorRun
-     Model.EdInst Proofs.CompositionProofs Proofs.EditorInv Proofs.EditorWitness Proofs.NoPanic.
+From LC Require Import Base.Lib Gen.Keyboard_gen Model.Keyboard Gen.Editor_gen Model.Syllable Model.Composition Model.Conversion Model.Editor Model.EditorRun
+     Model.EdInst Proofs.CompositionProofs Proofs.EdInstProofs Proofs.EditorInv Proofs.EditorWitness Proofs.EditorSelect Proofs.NoPanic Proofs.KeyEventsOk.
 Import ListNotations.
 Open Scope nat_scope.
 
@@ -111,9 +111,127 @@ Theorem C01_selector_next_without_word_fixed : forall fwd,
 Proof. exact selector_next_without_word_fixed. Qed.
 Print Assumptions C01_selector_next_without_word_fixed.
 
-(* Not yet proved (full statement; see the header):
-   Theorem C01_no_history_panics_or_hangs : forall ops e, Inv e -> ops_ok ops ->
-     fine (run dops sops conv e ops)
-   for dictionaries without empty keys / empty phrases and frequencies below 2^31, conversion
-   oracles that tile the buffer, key events as the C API produces them (printable ASCII or U+FFFD)
-   and page sizes >= 1. *)
+(* ---- the whole editor: no history panics or hangs ---- *)
+(* The statement quantifies over: every dictionary implementation `dops` with a well-formedness predicate
+   that the operations preserve (no empty key, no empty phrase, frequencies below 4*10^9 - what a .dat / trie
+   file that passed the C12 validation and the user dictionary hold), every syllable editor `sops`, every
+   conversion oracle that tiles the buffer (the contract C03 proves of the engine's answers and the
+   correspondence check validates per logged conversion), the symbol tables the editor was created with, every
+   state the invariant allows, and every finite sequence of operations whose key events are what the C API
+   builds (Space carries ' ', a printable key carries a character that has a full-width form - all of ASCII
+   32..126 does, C01_capi_key_events_are_ok - anything else is U+FFFD) and whose option records have a page
+   size of at least 1 (the C API accepts 1..10).  `fine r`: r is neither `Panic site` nor `OutOfFuel`. *)
+Section Histories.
+Context {D SY : Type} (dops : dict_ops D) (sops : syl_ops SY) (conv : conv_fn).
+Variable dict_ok : D -> Prop.
+Hypothesis ok_lookup : forall d f, dict_ok d -> do_lookup dops d f [] = [].
+Hypothesis ok_add : forall d k t f, dict_ok d -> length t <= length k -> (f <= 100)%N -> dict_ok (fst (do_add dops d k t f)).
+Hypothesis ok_update : forall d k t f u tm, dict_ok d -> length t = length k -> k <> [] -> (u <= MAX_USER_FREQ)%N -> dict_ok (do_update dops d k t f u tm).
+Hypothesis ok_remove : forall d k t, dict_ok d -> dict_ok (do_remove dops d k t).
+Hypothesis alt_stable : forall x c, so_alt sops (so_clear sops x) c = so_alt sops x c.
+Variable ss0 : symbol_sel.
+Hypothesis ss0_good : ss_good ss0.
+Hypothesis ss0_fresh : ss_cursor ss0 = None.
+Hypothesis ok_text : forall d f k p, dict_ok d -> In p (do_lookup dops d f k) -> fst p <> [].
+Hypothesis ok_freq : forall d f k p, dict_ok d -> In p (do_lookup dops d f k) -> (snd p < 4000000000)%N.
+Hypothesis conv_tiles : forall c n, wf_comp c -> contiguous 0 (clen c) (conv c n) = true.
+
+Theorem C01_every_operation_total : forall e o, op_fine o -> Inv dops sops dict_ok ss0 e ->
+  fine (step dops sops conv e o).
+Proof. intros e o Ho Hi. eapply (fine_step dops sops conv dict_ok); eassumption. Qed.
+
+Theorem C01_no_history_panics_or_hangs : forall ops e, Forall op_fine ops -> Inv dops sops dict_ok ss0 e ->
+  fine (run dops sops conv e ops).
+Proof. intros ops e Ho Hi. eapply (fine_run dops sops conv dict_ok); eassumption. Qed.
+
+Theorem C01_no_history_from_a_fresh_editor_panics_or_hangs : forall d s0 ab t0 ops, dict_ok d -> Forall op_fine ops ->
+  fine (run dops sops conv (init_editor d s0 ab ss0 t0) ops).
+Proof.
+  intros d s0 ab t0 ops Hd Hops. apply C01_no_history_panics_or_hangs; [exact Hops|].
+  eapply init_inv; eassumption.
+Qed.
+End Histories.
+Print Assumptions C01_every_operation_total.
+Print Assumptions C01_no_history_panics_or_hangs.
+Print Assumptions C01_no_history_from_a_fresh_editor_panics_or_hangs.
+
+(* ---- the hypotheses can be met (non-vacuity) ---- *)
+(* every key event the C API builds is admitted: the character is printable ASCII or U+FFFD *)
+Theorem C01_capi_key_events_are_ok : forall ev,
+  (kcode ev = kc_Space -> kunicode ev = 32%N) ->
+  ((32 <= kunicode ev <= 126)%N \/ kunicode ev = REPLACEMENT_CHAR) -> event_ok ev.
+Proof.
+  intros ev Hsp Hu.
+  assert (Sweep : forallb (fun c => match full_width_symbol_input (N.of_nat c) with None => false | Some _ => true end) (seq 32 95) = true)
+    by (vm_compute; reflexivity).
+  rewrite forallb_forall in Sweep.
+  assert (K : (32 <= kunicode ev <= 126)%N -> full_width_symbol_input (kunicode ev) <> None).
+  { intros Hr. specialize (Sweep (N.to_nat (kunicode ev))). rewrite N2Nat.id in Sweep.
+    destruct (full_width_symbol_input (kunicode ev)); [discriminate|]. exfalso.
+    assert (false = true); [|discriminate]. apply Sweep. apply in_seq. lia. }
+  split.
+  - intros Hc. apply K. rewrite (Hsp Hc). lia.
+  - intros Hp. destruct Hu as [Hr|Hr]; [now apply K|]. unfold is_printable in Hp. rewrite Hr, N.eqb_refl in Hp. discriminate.
+Qed.
+Print Assumptions C01_capi_key_events_are_ok.
+
+(* ... and those are exactly the events the C entry points hand to the editor: every chewing_handle_* builds
+   its event with KeyboardLayout::map / map_with_mod / map_ascii / map_ascii_numlock of the selected layout.
+   On the tables generated from src/editor/keyboard/*.rs: all 8 layouts x all 63 key codes x all 16 modifier
+   sets, and all 256 byte values of chewing_handle_Default / chewing_handle_Numlock (complete sweeps) *)
+Theorem C01_every_layout_key_event_is_admitted : forall kb ev,
+  (kb < n_keyboard)%N ->
+  ((exists code mods, (code < Keyboard_gen.n_keycode)%N /\ (mods < 16)%N /\ map_keycode kb code mods = Ok ev) \/
+   (exists c, (c < 256)%N /\ (map_ascii kb c = Ok ev \/ map_ascii_numlock kb c = Ok ev))) ->
+  op_fine (OpKey (ed_event ev)).
+Proof.
+  intros kb ev Hkb [(code & mods & Hc & Hm & He)|(c & Hc & He)]; cbn [op_fine].
+  - exact (keycode_event_ok kb code mods ev Hkb Hc Hm He).
+  - exact (ascii_event_ok kb c ev Hkb Hc He).
+Qed.
+Print Assumptions C01_every_layout_key_event_is_admitted.
+
+(* the in-memory layered dictionary the correspondence check runs (Model/EdInst.v) with the standard layout
+   meets every dictionary hypothesis: the theorem applies to the very instance that is compared with the
+   Rust editor *)
+Theorem C01_no_history_panics_or_hangs_instance : forall conv ss d s0 ab t0 ops,
+  (forall c n, wf_comp c -> contiguous 0 (clen c) (conv c n) = true) ->
+  ss_good ss -> ss_cursor ss = None -> md_fine d -> Forall op_fine ops ->
+  fine (run md_ops std_ops conv (init_editor d s0 ab ss t0) ops).
+Proof.
+  intros conv ss d s0 ab t0 ops Hconv Hg Hf Hd Hops.
+  apply (C01_no_history_from_a_fresh_editor_panics_or_hangs md_ops std_ops conv md_fine); try assumption.
+  - intros d0 f H. apply md_ok_lookup. now apply md_fine_ok.
+  - exact md_fine_add.
+  - exact md_fine_update.
+  - exact md_fine_remove.
+  - reflexivity.
+  - intros d0 f k p. apply md_fine_text.
+  - intros d0 f k p. apply md_fine_freq.
+Qed.
+Print Assumptions C01_no_history_panics_or_hangs_instance.
+
+(* the premises hold somewhere non-trivial: a dictionary with a system and a user phrase, the conversion
+   that gives every symbol its own interval, a history that types, opens the list, pages and commits *)
+Example C01_instance_premises_hold :
+  md_fine d3 /\ ss_good ss_empty /\ ss_cursor ss_empty = None /\
+  (forall c n, wf_comp c -> contiguous 0 (clen c) (conv_single c n) = true) /\
+  Forall op_fine (open_third_page ++ [OpKey (key kc_Space 32%N); OpStart; OpCommit]).
+Proof.
+  split; [split; repeat constructor; try discriminate; reflexivity|].
+  split; [split; intros name; [intros [] | intros idx []]|].
+  split; [reflexivity|].
+  split.
+  - intros c n _. unfold conv_single. generalize (clen c) as len. intros len.
+    assert (G : forall k from, contiguous from (from + k) (map (fun i => mkIv i (S i) true [20013%N]) (seq from k)) = true).
+    { induction k as [|k IH]; intros from; cbn [seq map contiguous ib ie].
+      - rewrite Nat.add_0_r. apply Nat.eqb_refl.
+      - rewrite Nat.eqb_refl. cbn [andb]. assert (E : Nat.ltb from (S from) = true) by (apply Nat.ltb_lt; lia). rewrite E. cbn [andb].
+        replace (from + S k) with (S from + k) by lia. apply IH. }
+    exact (G len 0).
+  - assert (P : forall code u, (code = kc_Space -> u = 32%N) -> ((32 <= u <= 126)%N \/ u = REPLACEMENT_CHAR) -> op_fine (OpKey (key code u))).
+    { intros code u H1 H2. apply C01_capi_key_events_are_ok; assumption. }
+    cbn [open_third_page app].
+    repeat (apply Forall_cons; [first [ exact I | cbn; lia | apply P; [intros Hc; first [reflexivity | discriminate Hc] | first [left; lia | right; reflexivity]] ]|]).
+    apply Forall_nil.
+Qed.
